@@ -71,7 +71,7 @@ impl WriteBufferManager {
 //@contract-file fn/journal_get_writer.c
 //@end
 
-//@extract src/keyspace/mod.rs :: Keyspace :: inner_rotate_memtable world props=C01+C05+C06+C10
+//@extract src/keyspace/mod.rs :: Keyspace :: inner_rotate_memtable world props=C01+C05+C06+C10+C12+C04+C18
 //@contract-file fn/ks_inner_rotate.c
 //@proof after snapshot_tracker.gc
             let ghost w2 = *w;
